@@ -2,6 +2,7 @@
 # tools/run_all.sh [tier] [seed]  - run every check, print a summary line per property
 cd "$(dirname "$(readlink -f "$0")")/.." || exit 2
 tier=${1:-quick}; seed=${2:-0}
+mkdir -p .work
 rc=0
 for id in C01 C02 C03 C04 C05 C06 C07 C08 C09 C10 C11 C12 C13 C14 C15 C16 C17 C18 C19 C20; do
   t0=$(date +%s)
